@@ -481,8 +481,9 @@ def opSetRef (w : World) (x t : Nat) : World × Ans :=
                     | .text _ r => .text (.str newRef) r
                   (setModel w k { m.setRoot (m.rootItems.modify x fun _ _ => (h', kids')) with refs := rs' }, .ok "")
                 else
-                  -- the Rust code has already set DEST and updated the reverse map when this fails
-                  (setModel w k { m.setRoot (m.rootItems.modify x fun _ k0 => (h', k0)) with refs := rs' }, .err)
+                  -- refused before anything is changed (`accepts_character_data`, since the repair of finding
+                  -- c11:set-reference-target-late-failure; before it DEST and the reverse map had already been updated)
+                  (w, .err)
 
 /-- `set_comment`: "--" is replaced by "__" (left to right, non-overlapping) -/
 def fixComment : Bytes → Bytes
